@@ -25,7 +25,7 @@ ASSUMPTIONS = ['the document is dumped as parsed (before preprocessing), re-pars
 def _case(draw):
     structural = draw(st.integers(0, 3)) == 0
     strs = st.one_of(S.SIMPLE_SCALARS, st.sampled_from(['multi\nline', "it's", 'say "x"', 'both \' and "', ' lead', 'trail ', '1', 'true', '~', 'a: b', '#c', '', 'é中', "f'{1+1}'", 'f"x"', '0x1F', '1_000']))
-    doc = draw(S.full_doc(allow_structural=structural, scalars=strs))
+    doc = draw(S.full_doc(allow_structural=structural, scalars=strs, aliases=draw(st.booleans())))
     pre = draw(st.lists(S.tagged_stages(min_stages=1, max_stages=1, keys=S.MERGE_KEYS_NONEG, neg=False, density=3).map(lambda l: l[0]), max_size=2))
     post = draw(st.lists(S.tagged_stages(min_stages=1, max_stages=1, keys=S.MERGE_KEYS_NONEG, neg=False, density=3, notnew=True).map(lambda l: l[0]), max_size=2))
     return {'doc': doc, 'pre': pre, 'post': post, 'structural': structural}
@@ -95,6 +95,8 @@ def classify(doc):
         if n['t'] == 'sc' and isinstance(n['v'], str) and fl and (not n['v'].isalnum()):
             nt = True
             labels.add('tagged-scalar-needs-quoting')
+        if n['t'] == 'alias':
+            labels.add('alias')
         if n['t'] in ('empty',) and fl:
             labels.add('flag-on-null')
             nt = True
